@@ -225,7 +225,7 @@ pub trait Api {
     fn x_boxed(&self, route: Route, req: BoxReq, seed: u64, try_: bool) -> Result<BoxOut, ()>;
 
     // ---- a BumpVec<u64, &Scope> kept as raw parts between operations
-    /// op: 0 push, 1 reserve(n), 2 shrink_to_fit, 3 extend n, 4 drop (deallocate)
+    /// op: 0 push, 1 reserve(n), 2 shrink_to_fit, 3 extend n, 4 drop (deallocate), 6 shrink_to(n % 8), 7 clear + shrink_to(0)
     unsafe fn x_vec_op(&self, route: Route, parts: (usize, usize, usize), op: u8, n: usize, seed: u64) -> ((usize, usize, usize), bool);
 
     /// `alloc_try_with`: closure allocates through `self` via `inner`, returns Ok / Err.
@@ -883,6 +883,11 @@ unsafe fn vec_op_impl<'a, X: BumpAllocatorTypedScope<'a>>(
             }
         }
         2 => v.shrink_to_fit(),
+        6 => v.shrink_to(n % 8),
+        7 => {
+            v.clear();
+            v.shrink_to(0);
+        }
         3 => {
             for _ in 0..n {
                 if v.try_push(make_val::<u64>(seed, v.len())).is_err() {
